@@ -13,6 +13,7 @@ import re
 from core import LeanDriver, err_kind, canon, CORPUS_DIR, Result
 from gen import cypher
 import lib_fake_neo4j as fake
+import lib_c19_shadow as shadow
 
 ID = "C19"
 GENERATORS = [cypher.generate]
@@ -49,7 +50,7 @@ THEOREMS = [P + t for t in (
      "get_matching_nodes_empty_props_wellformed",
      # identifier holes: the verdict of the lint is independent of the identifiers; every template x argument shape for ALL identifiers
      "lint_verdict_independent_of_identifiers", "bound_ok_independent_of_identifiers", "scoping_follows_cypher",
-     "clause_structure_checked", "vocabulary_fills_holes", "hole_templates_clean_scalar", "hole_templates_clean_maps",
+     "clause_structure_checked", "lint_rejects_empty_entry", "lint_rejects_leading_empty_entry", "empty_map_entries_rejected", "vocabulary_fills_holes", "hole_templates_clean_scalar", "hole_templates_clean_maps",
      "hole_templates_clean", "wellformed_all_identifiers", "wellformed_all_identifiers_all_values"]
     + [s + "_value_free" for s in VALUE_FREE_SITES]
     + [s + "_value_dependent_counterexample" for s in VALUE_DEPENDENT_SITES])]
@@ -74,6 +75,12 @@ TRUSTED_BASE = [
     "unreached call site, not examined; the values the records carry are tracked into later statements like arguments; the oracle names a "
     "call site Class.method#k from the backend frame that called run() and its own ast scan, independently of the translator; "
     "Neo4j/APOC execution is not modelled at all",
+    "harness/lib_c19_shadow.py (round 5): a STORE behind the stand-in driver without interpreting Cypher - every method that calls run() "
+    "(harness's ast scan) runs for real against the recording driver and then the same call on a NetworkX graph of the same graph id "
+    "answers the caller; trusted: the NetworkX backend answers the abstract interface the way a Neo4j server holding the same graph would "
+    "(labels, property dicts, neighbour lists, GraphID re-homing), primitives without a NetworkX counterpart (the CBM's own queries, "
+    "_validate_graph) answer with the permissive records; the world is one small aggregate (8 nodes, label+capacity delegations for two "
+    "delegation ids, a stitch node), not an enumeration of graphs",
     "grouping of requested components into (type, model, count) rows is done by the harness mirroring neo4j_cbm.py:285-294 and is "
     "checked only through the text comparison; str() of non-string property values is taken from Python",
 ]
@@ -89,7 +96,10 @@ RULE = ("(call site, identifier choice, value assignment): every backend call x 
         "choices; multi-slot sampled in quick, exhaustive in thorough) x adversarial values (quotes, backslashes, braces, $, newlines, "
         "Cypher keywords, non-ASCII); non-trivial = some value contains a metacharacter; distinct by canonical case; every call additionally "
         "against empty / benign / payload-carrying RESULT sets of the stand-in driver, merge_adm and unmerge_adm under 10 result scenarios; every "
-        "run() call site of the five modules (harness's own ast scan) must be in the generated table and reached")
+        "run() call site of the five modules (harness's own ast scan) must be in the generated table and reached; falsy values (None, '', 0, "
+        "False, []) at every position of every mapping argument of 1-3 entries; every public method of the six Neo4j-backed classes incl. "
+        "their base classes (61 operations, coverage obligation over inspect.getmembers) on a stored aggregate x 10 roles of stored strings "
+        "x payloads; every identifier-taking call as 1st/2nd/3rd call after every other call with the same identifier (histories)")
 
 # ------------------------------------------------------------------------------------------------------------
 # the property's lint, written independently of Model/Cypher.lean from the same specification
@@ -905,6 +915,40 @@ def corner_groups(call, rng):
     return out
 
 
+# falsy-but-legal VALUES inside a mapping argument: a setter that decides what to put into the text by truth value / `is None`
+# per element (instead of per mapping) shows only when such a value sits next to other entries
+FALSY_VALUES = [None, "", 0, False, []]
+
+
+def falsy_groups(rng, which=("props",)):
+    """deterministic: every call taking a mapping x 1, 2, 3 entries x every POSITION (only / first / middle / last) x every falsy
+    value, and all entries falsy at once.  -> [(benign base, [variants])]"""
+    V = voc()
+    out = []
+    for call in calls():
+        for m in call.maps:
+            mm = m.rstrip("!")
+            if mm not in which or mm == "comps":
+                continue
+            for n in (1, 2, 3):
+                ks = {"props": V["props"][7:7 + n], "merge_properties": MERGE_KEYS[:n]}[mm]
+                keys = {x.rstrip("!"): ([] if x.rstrip("!") != mm else list(ks)) for x in call.maps}
+                ids = {slot: (None if d.endswith("?") else V["props" if d == "props_unsettable" else d.rstrip("?")][0])
+                       for slot, d in call.idents.items()}
+                base = {"call": call.name, "idents": ids, "values": gen_values(call, rng, "benign"),
+                        "maps": gen_maps(call, rng, "benign", keys=keys)}
+                advs = []
+                # (get_matching_nodes_with_components concatenates: its values are strings by contract)
+                for f in ([""] if call.name.startswith("cbm") else FALSY_VALUES):
+                    for pos in list(range(n)) + ([None] if n > 1 else []):
+                        a = json.loads(json.dumps(base))
+                        a["maps"][mm] = [[k, (f if pos is None or i == pos else v)] for i, (k, v) in enumerate(base["maps"][mm])]
+                        a["falsy"] = [mm, n, "all" if pos is None else pos, repr(f)]
+                        advs.append(a)
+                out.append((base, advs))
+    return out
+
+
 def count_shapes(res, case):
     """argument-shape histogram for the evidence: which shapes of every optional / container argument were driven"""
     for m, rows in case["maps"].items():
@@ -978,6 +1022,10 @@ def correspondence(ctx, res):
     for b, advs in groups:
         cases.append(b)
         cases.extend(advs)
+    for b, advs in falsy_groups(ctx.sub_rng("falsy")):
+        cases.append(b)
+        cases.extend(advs)
+        res.count("falsy-map-values", len(advs))
     reqs, meta = [], []
     vias = ["Neo4jCBMGraph", "Neo4jASM", "Neo4jADMGraph", "Neo4jARMGraph"]
     for ci, case in enumerate(cases):
@@ -1065,6 +1113,20 @@ def correspondence(ctx, res):
     # some result scenario: statements that are only issued when earlier results are (non-)empty live behind the answers of the
     # stand-in driver, so every call is also run against empty results and the compound operations under every scenario
     extra = result_scenarios_reach(res, tab, reached)
+    # ... and on a database that holds a graph (lib_c19_shadow): every public method of every Neo4j-backed class
+    for name in shadow.ops():
+        rec_s, where_s, _, _, _ = shadow.run_op(store_prims(), name)
+        sites_s = [site_of(w) for w in where_s]
+        reached.update(sites_s)
+        res.count("store-op")
+        for (text, _, _), w in zip(rec_s, sites_s):
+            if w not in tab:
+                extra.add(w)
+                res.disagreements.append({"case": {"kind": "store", "op": name}, "impl": {"site": w, "text": text},
+                                          "model": "no generated template for this call site"})
+    npub, nmiss = store_coverage(res)
+    ctx.notes.append("public methods of the Neo4j-backed classes (base classes included) driven as direct calls or on the store: "
+                     "%d of %d; %d store operations" % (npub - nmiss, npub, len(shadow.ops())))
     src = source_sites()
     unknown = sorted((src | extra) - set(tab))
     if unknown:
@@ -1196,6 +1258,11 @@ LINT_SUITE = [
     ("MATCH (n {GraphID: $g, Name: }) RETURN n", ["missing-operand"]),
     ("MATCH (n {GraphID: $g, }) RETURN n", ["dangling-comma"]),
     ("MATCH (n {GraphID: $g}) RETURN n, ", ["dangling-comma"]),
+    ("MATCH (n {GraphID: $g}) SET n += { , Name: 'a' } RETURN n", ["dangling-comma"]),
+    ("MATCH (n {GraphID: $g}) SET n += { Name: 'a', , Site: 'b' } RETURN n", ["dangling-comma"]),
+    ("MATCH (n {GraphID: $g}) SET n += { Name: 'a',  } RETURN n", ["dangling-comma"]),
+    ("MATCH (n {GraphID: $g}) SET n += {  } RETURN n", []),
+    ("CALL apoc.create.node([ 'GraphNode', 'X' ], { Class: 'X', , NodeID: 'n' });", ["dangling-comma"]),
     ("MATCH (n {GraphID: $g}) WHERE n.a = 1 WHERE n.b = 2 RETURN n", ["clause-order"]),
     ("MATCH (n {GraphID: $g}) RETURN n SET n.a = 1", ["clause-order"]),
     ("MATCH (n {GraphID: $g}) WHERE n.a = 1", ["clause-order"]),
@@ -1397,6 +1464,38 @@ def argument_sweep(ctx, res):
     res.count("argument-sweep", n)
 
 
+def falsy_sweep(ctx, res):
+    """deterministic: falsy VALUES (None, '', 0, False, []) inside every mapping argument at every position: each statement is
+    still well-formed (none of these values renders with a quote, so the lint speaks for the text as a whole: an empty map entry
+    `{ a: 'x', , b: 'y' }` / `{ , a: 'x' }` / `{ a: 'x', }` is a dangling comma) and has the same text outside string literals as
+    with benign values (an entry dropped or emptied because of its value makes the text depend on stored values)"""
+    n = 0
+    for base, advs in falsy_groups(ctx.sub_rng("falsy"), which=("props", "merge_properties")):
+        rec0, _ = drive(base)
+        sites = list(drive.where)
+        for adv in advs:
+            n += check_falsy(base, adv, rec0, sites, res)
+    res.evaluations += n
+    res.count("falsy-sweep", n)
+
+
+def check_falsy(base, adv, rec0, sites, res):
+    rec, _ = drive(adv)
+    case = {"kind": "falsy", "base": base, "adv": adv}
+    call = call_by_name(base["call"])
+    if len(rec) != len(rec0):
+        res.violation("C19:%s.%s:statement-count" % (call.cls, call.method), "number of statements depends on stored values",
+                      case, observed=len(rec), expected=len(rec0))
+        return 1
+    check_wellformed(rec, sites, res, case)
+    for (t0, _, _), (t1, _, _), site in zip(rec0, rec, sites):
+        if lex(t0)[1] != lex(t1)[1]:
+            res.violation("C19:%s:structure-depends-on-value:%s" % (site, adv["falsy"][0]),
+                          "a falsy value (None / '' / 0 / False / []) in a mapping changes the statement text outside string literals",
+                          case, observed=t1, expected=t0)
+    return 1
+
+
 def result_sweep(ctx, res):
     """deterministic: every call x every argument shape against the stand-in driver answering with (a) nothing, (b) benign records,
     (c) records carrying each payload: what is issued on empty results is well-formed too, and a value that comes back from the
@@ -1430,13 +1529,17 @@ def check_results(base, res, payloads=None):
 
 
 def oracle(ctx, res, per_call=None, n_values=None):
-    # deterministic corpus first (the known findings' triggering cases live there)
+    # histories first: a text that depends on earlier calls is then reported with the history that shows it
+    history_sweep(ctx, res)
+    # deterministic corpus (the known findings' triggering cases live there)
     for c in corpus_cases():
         if "base" in c:
             check_group(c["base"], c.get("advs", []), res)
             res.count("corpus")
     argument_sweep(ctx, res)
+    falsy_sweep(ctx, res)
     result_sweep(ctx, res)
+    store_sweep(ctx, res)
     groups = gen_cases(ctx, "oracle", per_call or ctx.scale(25, 100000), n_values or ctx.scale(6, 20), ctx.scale(10, 60))
     for base, advs in groups:
         res.count("call:" + base["call"])
@@ -1577,6 +1680,164 @@ def compound(ctx, res):
             compound_diff(kind, benign, ids, rec0, sites, res)
 
 
+# ------------------------------------------------------------------------------------------------------------
+# operations against a STORE (round 5): lib_c19_shadow
+
+def store_prims():
+    """(class, method) of every method that calls run() today (the harness's own scan)"""
+    return {tuple(k.split("#")[0].split(".", 1)) for k in source_sites() if "@" not in k}
+
+
+STORE_PAYLOADS = ["p'\"\\", "p`{x} $graphId"]
+
+
+def store_check(name, role, payload, base, res):
+    """one operation on the world in which every string of `role` carries `payload`, against the benign run `base`"""
+    rec0, sites0, e0 = base
+    rec, where, e, _, known = shadow.run_op(store_prims(), name, role, payload)
+    if e != e0:
+        # a value the library validates (sliver names, label formats) stops the operation or its preparation: nothing to compare
+        res.count("store-skip:" + str(e))
+        return 0
+    sites = [site_of(w) for w in where]
+    case = {"kind": "store", "op": name, "role": role, "payload": payload}
+    meth = name.split(":")[0]
+    if sorted(sites) == sorted(sites0) and sites != sites0:
+        # same statements in another order: the library iterates over SETS of stored strings (delegation ids, common node ids), whose
+        # order follows the strings' hashes.  Compared per call site as multisets of texts-without-literals.
+        res.count("store-reordered")
+        import collections
+        for site in sorted(set(sites0)):
+            skel = lambda t: (lex(t)[1], lex(t)[2])
+            a = collections.Counter(skel(r[0]) for r, s_ in zip(rec0, sites0) if s_ == site)
+            b = [r[0] for r, s_ in zip(rec, sites) if s_ == site]
+            bad = [t for t in b if not skel(t)[1] or skel(t) not in a]
+            if bad or collections.Counter(skel(t) for t in b) != a:
+                obs = bad[0] if bad else b[0]
+                exp = [r[0] for r, s_ in zip(rec0, sites0) if s_ == site][0]
+                res.violation("C19:%s:%s:%s.%s" % (site, "value-in-text", meth, role),
+                              WHAT["value-in-text"] + " (a %s the database holds, through %s)" % (role, meth), case, observed=obs, expected=exp)
+        return 1
+    if len(rec) != len(rec0) or sites != sites0:
+        # the identifiers (classes, relations, property names) and the shape of the world are the same in both runs: only values differ
+        res.violation("C19:%s:statement-sequence:%s" % (meth, role), "which statements an operation issues depends on stored values "
+                      "(same graph shape, same identifiers)", case, observed=sites, expected=sites0)
+        return 1
+    for site, kind, obs, exp in diff_runs(rec0, sites0, rec, known):
+        res.violation("C19:%s:%s:%s.%s" % (site, kind, meth, role), WHAT[kind] + " (a %s the database holds, through %s)" % (role, meth),
+                      case, observed=obs, expected=exp)
+    return 1
+
+
+def store_base(name, res=None):
+    rec0, where0, e0, un, _ = shadow.run_op(store_prims(), name)
+    sites0 = [site_of(w) for w in where0]
+    if res is not None:
+        res.count("store-op:%s:%d-statements" % (name, len(rec0)))
+        for s_ in set(sites0):
+            res.count("store-site:" + s_)
+        if e0:
+            res.count("store-err:" + e0)
+        check_wellformed(rec0, sites0, res, {"kind": "store", "op": name, "role": None, "payload": ""})
+    return rec0, sites0, e0
+
+
+def store_sweep(ctx, res):
+    """every public method of every Neo4j-backed class (base classes included) on a database that HOLDS a small aggregate with
+    delegations (lib_c19_shadow: the statements are recorded from the real methods, the answers come from a NetworkX graph of the
+    same content): every statement is well-formed, and replacing the strings of one role (graph ids, node ids, names, sites,
+    delegation ids, pool ids, label values, details ...) by strings with quotes / backslashes / braces changes no statement text"""
+    payloads = ctx.scale(STORE_PAYLOADS, STORE_PAYLOADS + PAYLOADS)
+    n = 0
+    for name in shadow.ops():
+        base = store_base(name, res)
+        for role in shadow.ROLES:
+            for pl in payloads:
+                n += store_check(name, role, pl, base, res)
+    res.evaluations += n
+    res.count("store-sweep", n)
+
+
+def store_coverage(res):
+    """every public method (taking self) of the Neo4j-backed classes is driven: as a direct call (calls()) or on the store"""
+    driven = set()
+    for name in shadow.ops():
+        cls, m = name.split(":")[0].split(".", 1)
+        driven.update("%s.%s" % (cls, x) for x in m.split("+"))
+    for c in calls():
+        driven.add("%s.%s" % (c.cls, c.method))
+    missing = sorted(shadow.public_methods() - driven)
+    if missing:
+        res.disagreements.append({"case": "coverage", "impl": "public methods of the Neo4j-backed classes that no operation of the harness "
+                                  "drives (neither as a direct call nor on the store)", "model": missing})
+    return len(shadow.public_methods()), len(missing)
+
+
+# ------------------------------------------------------------------------------------------------------------
+# histories (round 5): the text of a statement must not depend on EARLIER calls in the same process (memoised fragments keyed
+# by too little: a clause built for one operation handed to another one with the same label / relation / property name)
+
+def history_cases(rng):
+    """one benign case per call that takes an identifier, per identifier value (two values of every vocabulary), grouped by the
+    vocabulary: calls of one group are run after one another with the SAME identifier"""
+    V = voc()
+    groups = {}
+    for call in calls():
+        kinds = sorted({d.rstrip("?").replace("props_unsettable", "props") for d in call.idents.values()})
+        for kind in kinds:
+            for pick in (0, -1):
+                ids = {}
+                for slot, d in call.idents.items():
+                    dom = V["props" if d == "props_unsettable" else d.rstrip("?")]
+                    if d == "props_unsettable":
+                        from fim.graph.abc_property_graph import ABCPropertyGraph
+                        dom = [x for x in dom if x not in ABCPropertyGraph.NO_UNSET_PROPERTIES]
+                    ids[slot] = dom[pick]
+                case = {"call": call.name, "idents": ids, "values": gen_values(call, rng, "benign"),
+                        "maps": gen_maps(call, rng, "benign", keys={m.rstrip("!"): [] for m in call.maps})}
+                groups.setdefault((kind, pick), []).append(case)
+    return groups
+
+
+def run_history(seq, res, texts=None, prior=()):
+    """the cases of `seq` one after the other in this process: every statement well-formed; a case that was run before (in any
+    history) issues the same texts again.  `texts`: {case -> texts} seen so far"""
+    texts = {} if texts is None else texts
+    for i, case in enumerate(seq):
+        rec, _ = drive(case)
+        sites = list(drive.where)
+        hist = {"kind": "history", "seq": list(prior) + seq[:i + 1]}      # (prior: what this process ran before with the same identifier)
+        check_wellformed(rec, sites, res, hist)
+        k = canon(case)
+        now = [r[0] for r in rec]
+        if k in texts and texts[k] != now:
+            for a, b, site in zip(texts[k], now, sites):
+                if a != b:
+                    res.violation("C19:%s:depends-on-earlier-calls" % site, "the text of a statement depends on which operations ran "
+                                  "earlier in the process (same arguments, different text)", hist, observed=b, expected=a)
+        texts.setdefault(k, now)
+    return texts
+
+
+def history_sweep(ctx, res):
+    """every call taking a class / relation / property name as the first, second and third call after every other call with the
+    same identifier (ordered pairs a, b, a, b of every group)"""
+    rng = ctx.sub_rng("history")
+    texts = {}
+    n = 0
+    for (kind, pick), cases in sorted(history_cases(rng).items()):
+        prior = []
+        for a in cases:
+            for b in cases:
+                run_history([a, b, a, b] if a is not b else [a, a, a], res, texts, prior)
+                for x in (a, b):
+                    if x not in prior:
+                        prior.append(x)
+                n += 1
+    res.evaluations += n
+    res.count("history-sweep", n)
+
+
 def search(ctx, res, broken):
     oracle(ctx, res, per_call=100000, n_values=ctx.scale(12, 40))
 
@@ -1588,6 +1849,21 @@ def replay(ctx, payload):
         check_group(c["base"], [], r)
     elif c.get("kind") == "independent":
         check_group(c["base"], [c["adv"]], r)
+    elif c.get("kind") == "history":
+        # (memoised state may already hold either operation's fragment: both orders)
+        texts = run_history(c["seq"], r)
+        run_history(list(reversed(c["seq"])), r, texts)
+        if not any(v["signature"] == payload.get("signature") for v in r.violations):
+            # the process that reported it had run other operations before (correspondence): the whole deterministic sweep, from a
+            # fresh process
+            history_sweep(ctx, r)
+    elif c.get("kind") == "store":
+        base = store_base(c["op"], r)
+        if c.get("role"):
+            store_check(c["op"], c["role"], c["payload"], base, r)
+    elif c.get("kind") == "falsy":
+        rec0, _ = drive(c["base"])
+        check_falsy(c["base"], c["adv"], rec0, list(drive.where), r)
     elif c.get("kind") == "results":
         check_results(c["base"], r, payloads=[c["payload"]] if c.get("payload") not in (None, "r1") else [])
     elif c.get("kind") == "compound":
